@@ -7,5 +7,7 @@ type syntaxQueryParamLiteral struct {
 func (l *syntaxQueryParamLiteral) compute(
 	_ interface{}, _ []interface{}) []interface{} {
 
-	return l.literal
+	// The comparators and type validators overwrite the list they are given,
+	// so every evaluation gets its own copy of the literal.
+	return []interface{}{l.literal[0]}
 }
